@@ -19,7 +19,7 @@ func init() {
 			"the matrix selector's window is [eval time − offset − range, eval time − offset]; a subquery runs from the first multiple of its step after (start − offset − range) to (end of the parent's last step − offset) and its child evaluator inherits the lookback delta; the @ modifier's effective offset is original + (eval time − @time) − enclosing subquery offsets.",
 		Note:           "Trusted: go/packages, go/types, go/cfg; rule tables in checker/c28.go.",
 		Covers:         "promql: evaluator.vectorSelectorSingle, evaluator.matrixIterSlice, evaluator.matrixSelector (window), evaluator.subqueryTimeRange, evaluator.runSubquery, setOffsetForAtModifier, subqueryTimes.",
-		NotCover:       "the iterators behind Seek/PeekPrev/Buffer (storage.MemoizedSeriesIterator, BufferedSeriesIterator: runtime state), smoothed/anchored selectors, sample limits, the values.",
+		NotCover:       "the iterators behind Seek/Buffer (storage.MemoizedSeriesIterator.Seek, BufferedSeriesIterator: runtime state; only the refresh of the memoised previous sample is decided), smoothed/anchored selectors, sample limits, the values.",
 		Run:            runC28,
 		MinObligations: 35,
 	})
@@ -236,6 +236,74 @@ func runC28(c *eng.Ctx) {
 			cs := f.CondsOf(l.Node)
 			return len(cs) == 1 && cs[0] == "mint == maxt=T"
 		})
+	}
+	// ---- R5 the memoised previous sample: everything PeekPrev hands out is refreshed whenever a sample is memoised ----
+	{
+		M := "storage:MemoizedSeriesIterator"
+		pk := c.Fn(M + ".PeekPrev")
+		fields := map[string]bool{}
+		ast.Inspect(pk.Body, func(n ast.Node) bool {
+			rs, ok := n.(*ast.ReturnStmt)
+			if !ok || len(rs.Results) != 5 || nodeText(rs.Results[4]) != "true" {
+				return true
+			}
+			for _, r := range rs.Results[:4] {
+				if se, ok := r.(*ast.SelectorExpr); ok && nodeText(se.X) == "b" {
+					fields[se.Sel.Name] = true
+				}
+			}
+			return true
+		})
+		names := eng.SortedKeys(fields)
+		c.Check("R5", pk.Where(), "PeekPrev returns four memoised fields", len(names) == 4, p.Pos(pk.Body.Pos()), strings.Join(names, ","))
+		nx := c.Fn(M + ".Next")
+		adv := stmt("b.valueType = b.it.Next()")
+		nx.Has("R5", adv, 1)
+		// per arm of the (exhaustive, see below) switch: every memoised field is stored, in the arm or after the switch
+		sws := nx.EnumSwitches("tsdb/chunkenc:ValueType")
+		if len(sws) != 1 {
+			c.Fail("R5", nx.Where(), "Next memoises the sample it leaves in a switch over its type", p.Pos(nx.Body.Pos()), "switch not found")
+		} else {
+			after := ""
+			seen := false
+			for _, st := range nx.Body.List {
+				if st == ast.Stmt(sws[0].Stmt) {
+					seen = true
+					continue
+				}
+				if seen {
+					if nodeText(st) == "b.valueType = b.it.Next()" {
+						break
+					}
+					after += nodeText(st) + " ; "
+				}
+			}
+			for name, cl := range sws[0].Clauses {
+				if name == "ValNone" {
+					continue
+				}
+				body := after
+				for _, st := range cl.Body {
+					body += nodeText(st) + " ; "
+				}
+				var missing []string
+				for _, fld := range names {
+					if !strings.Contains(body, "b."+fld+" = ") && !strings.Contains(body, "b."+fld+", ") && !strings.Contains(body, ", b."+fld+" = ") {
+						missing = append(missing, fld)
+					}
+				}
+				c.Check("R5", nx.Where(), "leaving a "+name+" sample refreshes every memoised field", len(missing) == 0, p.Pos(cl.Pos()), "not stored: "+strings.Join(missing, ", "))
+			}
+		}
+		nx.Only("R5", p.Store(M+".prevValue"), "is the float just left, or 0 for a histogram", func(l eng.Loc) bool {
+			t := nodeText(l.Node)
+			return t == "b.prevTime, b.prevValue = b.it.At()" || t == "b.prevValue = 0"
+		})
+		nx.Only("R5", p.Store(M+".prevFloatHistogram"), "is the histogram just left, or nil for a float", func(l eng.Loc) bool {
+			t := nodeText(l.Node)
+			return t == "b.prevFloatHistogram = nil" || t == "b.prevTime, b.prevFloatHistogram = b.it.AtFloatHistogram(nil)"
+		})
+		nx.SwitchCovers("R5", "tsdb/chunkenc:ValueType", 1, nil)
 	}
 	// ---- R3 the matrix selector's window ----
 	{
